@@ -85,6 +85,35 @@ func c05IOAux(c *mon.Ctx) {
 			objs = append(objs, o)
 		}
 	}
+	// hostile configurations: values that LOOK like resources (paths, URLs) under key names a layered / included /
+	// remote configuration would use, at the top level, in the higher-scoped tables and in every configurable lint's
+	// own table. Built and installed BEFORE the phase; if anything in the lint path follows them, the kernel sees it.
+	resKeys := []string{"extends", "extend", "include", "includes", "import", "imports", "base", "parent", "inherit", "file", "files", "path", "dir", "url", "uri", "source", "config", "configuration", "load", "from", "ref", "template", "overlay", "defaults", "schema", "plugin", "exec", "command", "script", "env", "proxy", "cache", "log", "output"}
+	resVals := []string{"/verif-no-such-dir/base.toml", "../../verif-no-such.toml", "verif-no-such-relative.toml", "http://127.0.0.1:9/verif.toml", "https://verif-no-such-host.invalid/c.toml", "file:///verif-no-such", "/etc/hostname", "/dev/null", "$HOME/.zlint.toml", "~/.zlint.toml"}
+	resTable := func() string {
+		t := ""
+		for i, k := range resKeys {
+			t += fmt.Sprintf("%s = %q\n", k, resVals[i%len(resVals)])
+		}
+		return t
+	}
+	docTop := resTable() + "[Global]\n" + resTable() + "[CABFBaselineRequirementsConfig]\n" + resTable()
+	docAll := docTop
+	for _, li := range Inv {
+		if li.Config {
+			docAll += "[" + li.Name + "]\n" + resTable()
+		}
+	}
+	var hostile []lint.Registry
+	for _, d := range []string{docTop, docAll} {
+		if cfgH, err := lint.NewConfigFromString(d); err == nil {
+			if r, err := g.Filter(lint.FilterOptions{NameFilter: regexpAll}); err == nil {
+				r.SetConfiguration(cfgH)
+				hostile = append(hostile, r)
+			}
+		}
+	}
+	c11BuildObjs(c)
 	_ = time.Now().Local().String() // force time.Local (reads TZ / zoneinfo) before the phase
 	_, _, _ = objs[0].Lint(g)       // first-use initialisation of lazily built tables
 	cfg := g.GetConfiguration()
@@ -158,6 +187,20 @@ func c05IOAux(c *mon.Ctx) {
 		}()
 	}
 	wg.Wait()
+	// the same entry points under the hostile configurations (objects on which the configurable lints decide)
+	hostileRuns := 0
+	for _, r := range hostile {
+		for i, o := range append(append([]*mon.Obj{}, c11Objs...), objs[:min(len(objs), 400)]...) {
+			if i >= len(c11Objs) && i%4 != 0 {
+				continue
+			}
+			if fo := o.Reparse(); fo != nil {
+				fo.Lint(r)
+				hostileRuns++
+			}
+		}
+	}
+	c.R.Count("io_runs_under_resource_looking_configuration", int64(hostileRuns))
 	phase.Store(2)
 	direct := 0
 	for i, o := range objs {
@@ -236,7 +279,7 @@ func c05IOPhase(c *mon.Ctx, r *mon.Report, ev *mon.Evidence) []string {
 	if err != nil {
 		return []string{"I/O phase wrote no report: " + err.Error()}
 	}
-	for _, k := range []string{"io_full_runs", "io_direct_runs", "io_objects"} {
+	for _, k := range []string{"io_full_runs", "io_direct_runs", "io_objects", "io_runs_under_resource_looking_configuration"} {
 		r.Counters[k] += rep.Counters[k]
 	}
 	var gates []string
